@@ -229,6 +229,8 @@ impl ExecProp for C07 {
             let users = b.sh.entries.iter().filter(|e| e.stage == Stage::Vertex && e.params.iter().any(|p| matches!(p, EParam::Struct { st, .. } if *st == si))).count();
             stats.class_if(users >= 2, "struct_shared_by_entries");
         }
+        let vnames: Vec<String> = expect::vertex_input_structs(&b.sh).iter().map(|si| b.sh.structs[*si].name.chars().filter(|c| *c != '0').collect()).collect();
+        stats.class_if((0..vnames.len()).any(|i| vnames[..i].contains(&vnames[i])), "vertex_struct_names_differ_only_by_zeros");
         for e in b.sh.entries.iter().filter(|e| e.stage == Stage::Vertex) {
             stats.class(&format!("entry_struct_params={}", e.params.iter().filter(|p| matches!(p, EParam::Struct { .. })).count()));
         }
